@@ -91,7 +91,21 @@ Theorem C13_recorded_checkpoint_is_latest_snapshot : forall s e c, struct_ok s -
   checkpoint s = Some c
   \/ forall a, In a (keys (replicas (fst (fst (step s e))))) ->
        exists tl, f_chain (wget (w (fst (fst (step s e)))) a) = c :: tl.
-Proof. intros s e c H Hwf Hc. exact (checkpoint_fresh_step s e H Hwf c Hc). Qed.
+Proof.
+  intros s e c H Hwf Hc. destruct (checkpoint_fresh_step s e H Hwf c Hc) as [P|[_ P]]; [left; exact P|right; exact P].
+Qed.
+
+(** ... and at that moment exactly RF replicas are listed, all RW (no request records a checkpoint and
+    marks a replica failed afterwards), and every one has persisted it *)
+Theorem C13_recorded_checkpoint_all_rw : forall s e c, ck_inv s -> ev_wf e = true ->
+  checkpoint (fst (fst (step s e))) = Some c -> checkpoint s <> Some c ->
+  count_rw (replicas (fst (fst (step s e)))) = rf (fst (fst (step s e)))
+  /\ length (replicas (fst (fst (step s e)))) = rf (fst (fst (step s e)))
+  /\ forall a, In a (keys (replicas (fst (fst (step s e))))) ->
+       (exists tl, f_chain (wget (w (fst (fst (step s e)))) a) = c :: tl)
+       /\ f_cp (wget (w (fst (fst (step s e)))) a) = Some c /\ f_cpk (wget (w (fst (fst (step s e)))) a) = true.
+Proof. exact recorded_checkpoint_all_rw. Qed.
 
 Print Assumptions C13_oracle_holds_on_model.
 Print Assumptions C13_recorded_checkpoint_is_latest_snapshot.
+Print Assumptions C13_recorded_checkpoint_all_rw.
